@@ -61,6 +61,8 @@ def trunc(text, width=300, lines=60):
         if len(out) >= lines: out.append('...'); break
     return '\n'.join(out)
 
+ENV_FAILURES = ('No space left on device', 'IO failure on output stream', 'Killed signal', 'internal compiler error', 'out of memory', 'Cannot allocate memory', 'cannot allocate memory', 'Disk quota exceeded')
+
 class BuildError(Exception):
     def __init__(self, msg, diag, src): super().__init__(msg); self.diag = diag; self.src = src
 
@@ -91,6 +93,9 @@ def build(src_text, flavour='gxx', extra=(), link_handler=True, name='tu', timeo
             raise BuildError('build timeout', 'compiler timeout after %ds' % timeout, src_text)
         if r.returncode != 0:
             diag = trunc('\n'.join(l for l in r.stderr.splitlines() if 'error' in l or 'note: ' in l or (name + '.cpp:') in l) or r.stderr, lines=80)
+            if any(w in r.stderr for w in ENV_FAILURES):
+                # the machine, not the program (disk full, killed compiler, ...): never cached, and not a verdict about the code
+                raise Inconclusive('compiler failed for an environmental reason: ' + trunc(r.stderr, lines=4))
             tmp = err + '.%d' % os.getpid()
             open(tmp, 'w').write(diag); os.replace(tmp, err)
             raise BuildError('build failed', diag, src_text)
